@@ -162,6 +162,7 @@ func ZZ_L1() {
 			}
 			m := zzUser{Seq: len(sent), Payload: zzrt.NondetInt64("payload"), Crash: zzrt.NondetBool("crash")}
 			sent = append(sent, zzSent{m.Payload, snd})
+			mon.sentSenders = append(mon.sentSenders, snd)
 			e.SendWithSender(p.pid, m, snd)
 		case 1:
 			if !fake.deliverable() {
